@@ -14,3 +14,4 @@ class Family:
     twin_args: Optional[List[int]] = None               # a concrete input expected to reach code 77 (sanity only)
     cond_timeout: Optional[float] = None                # per-condition CPU budget override (seconds)
     weight: int = 1
+    types: dict = field(default_factory=dict)           # param -> annotation (default "int")
